@@ -2,6 +2,8 @@ import GdcVerif.Model.J2kTiles
 import GdcVerif.Lemmas.J2kTiles
 import GdcVerif.Lemmas.J2kAssemble
 import GdcVerif.Lemmas.J2kResDims
+import GdcVerif.Lemmas.J2kTileRect
+import GdcVerif.Lemmas.J2kProgression
 /-!
   C19 — JPEG 2000 tiled images: exact reversible reconstruction for every tile grid.
 
@@ -102,23 +104,48 @@ example : (resDims 5 5 1).1 = 2 ∧ encLowLenOld 5 1 = 3 ∧ encLowLen 5 5 1 = 2
 theorem subband_split_old_shape_aligned (len x0 : Int) (n : Nat) (hl : 0 ≤ len) (hal : x0 % 2 ^ n = 0) :
     (resDims len x0 n).1 = encLowLenOld len n := aligned_agree len x0 n hl hal
 
-/-- (5) code-block index agreement, FULL (since fix 104b234): encoder (buildTilePacketEncoder) and decoder
-    (collectCodeBlockEntries) give the same (precinct column, grid index) to the code-block at band offset cbX0,
-    for every canvas origin of the tile-component at that resolution, precinct and code-block width -/
+/-- (5) code-block index agreement, FULL (since fixes 104b234 and 3981d09): encoder (buildTilePacketEncoder) and
+    decoder (collectCodeBlockEntries) give the same (precinct column, grid index) to the code-block at band offset
+    cbX0, for every canvas origin of the tile-component at that resolution, precinct and code-block width -/
 theorem codeblock_index_agreement (resX0 cbX0 pw cbw : Int) (h0 : 0 ≤ resX0) (hpw : 1 ≤ pw) :
     decCbIndex resX0 cbX0 pw cbw = encCbIndex resX0 cbX0 pw cbw := by
   unfold decCbIndex encCbIndex Gen.J2kT2.floorDiv
   have c1 : ¬ pw ≤ 0 := by omega
   simp only [c1, decide_false, Bool.false_eq_true, if_false, ge_iff_le, h0, decide_true, if_true]
 
-example : decCbIndex 16 0 32768 16 = (0, 1) ∧ encCbIndex 16 0 32768 16 = (0, 1) ∧
-    decCbIndex 0 64 32768 64 = (0, 1) ∧ decCbIndex 70 40 64 16 = (0, 2) ∧ decCbIndex 70 60 64 16 = (1, 0) := by decide
+/-- (5b) no empty leading columns (the repair of the quadratic grid, fix 3981d09): in the first precinct column the
+    k-th code-block of the band has grid index exactly k, whatever the origin of the tile-component — so the tag
+    trees and state tables of a precinct are as wide as the number of code-blocks the band has in it -/
+theorem codeblock_index_first_precinct (resX0 k pw cbw : Int) (h0 : 0 ≤ resX0) (hk : 0 ≤ k) (hpw : 1 ≤ pw) (hcb : 1 ≤ cbw)
+    (hin : resX0 % pw + k * cbw < pw) : decCbIndex resX0 (k * cbw) pw cbw = (0, k) := by
+  unfold decCbIndex Gen.J2kT2.floorDiv
+  have c1 : ¬ pw ≤ 0 := by omega
+  simp only [c1, decide_false, Bool.false_eq_true, if_false, ge_iff_le, h0, decide_true, if_true]
+  rw [tdiv_eq_ediv h0]
+  have hx : resX0 / pw * pw = resX0 - resX0 % pw := by
+    have := Int.mul_ediv_add_emod resX0 pw; rw [Int.mul_comm] at this; omega
+  have hm0 := Int.emod_nonneg resX0 (by omega : pw ≠ 0)
+  have hkc : 0 ≤ k * cbw := Int.mul_nonneg hk (by omega)
+  rw [hx]
+  have e1 : resX0 + k * cbw - (resX0 - resX0 % pw) = resX0 % pw + k * cbw := by omega
+  have e2 : resX0 - (resX0 - resX0 % pw) = resX0 % pw := by omega
+  rw [e1, e2, tdiv_eq_ediv (by omega : 0 ≤ resX0 % pw + k * cbw), Int.ediv_eq_zero_of_lt (by omega) hin]
+  simp only [Int.zero_mul, Int.add_zero, BEq.rfl, if_true]
+  have e3 : resX0 + k * cbw - (resX0 - resX0 % pw) = resX0 % pw + k * cbw := by omega
+  rw [e3, tdiv_eq_ediv (by omega : 0 ≤ resX0 % pw + k * cbw), tdiv_eq_ediv hm0,
+    Int.add_mul_ediv_right _ _ (by omega : cbw ≠ 0)]
+  have e4 : resX0 % pw / cbw + k - resX0 % pw / cbw = k := by omega
+  rw [e4]
 
-/-- regression anchor (old defect `j2k-tiled-codeblock-index-canvas-vs-local`): 17×8 image, 8×8 tiles, 16×16
-    code-blocks, 0 levels: tile 2 has resX0 = 16; its only code-block has grid index 1 in the decoder; the old
-    encoder (tile-local) said 0 (tag-tree shapes 2×1 vs 1×1), the repaired one 1 -/
-example : decCbIndex 16 0 32768 16 = (0, 1) ∧ encCbIndexOld 0 32768 16 = (0, 0) ∧ encCbIndex 16 0 32768 16 = (0, 1) := by
-  decide
+example : decCbIndex 16 0 32768 16 = (0, 0) ∧ encCbIndex 16 0 32768 16 = (0, 0) ∧
+    decCbIndex 2048 128 32768 64 = (0, 2) ∧ decCbIndex 70 40 64 16 = (0, 2) ∧ decCbIndex 70 60 64 16 = (1, 0) := by decide
+
+/-- regression anchors: (a) old defect `j2k-tiled-codeblock-index-canvas-vs-local` (17×8 image, 8×8 tiles, 16×16
+    code-blocks: tile 2 has resX0 = 16): the decoder of that time gave grid index 1, the tile-local encoder 0;
+    (b) old defect `c09-j2k-grid-offset` / `j2k-image-offset-cbgrid`: an 8×8 image at offset 2048 — the old decoder
+    numbered its single 64-wide code-block column 32 (33-wide tag trees, squared over both axes), now 0 -/
+example : decCbIndexOld 16 0 32768 16 = (0, 1) ∧ encCbIndexOld 0 32768 16 = (0, 0) ∧
+    decCbIndexOld 2048 0 32768 64 = (0, 32) ∧ decCbIndex 2048 0 32768 64 = (0, 0) := by decide
 
 /-- (6) tiled pipeline, partial: IF the per-tile codec (`codec k`: DWT with origin parity → T1 → T2 →
     packets → T2⁻¹ → T1⁻¹ → IDWT of tile k; unmodelled here) is the identity on every tile, THEN the tiled
@@ -140,4 +167,87 @@ theorem tiled_roundtrip_partial (codec : Nat → Plane → Plane) (htile : ∀ k
 
 example : (fun (_ : Nat) (t : Plane) => t) 0 (fun _ => 7) 3 = 7 := rfl
 
+/-! ## Image offsets and packet sequencing -/
+
+/-- (7) the decoder's tile rectangle (generated kernel of t2.NewTileDecoder, `Gen.J2kTileClamp`) is the T.800 B.3
+    rectangle — the tile's grid cell CLIPPED to the image area [XOsiz, Xsiz) × [YOsiz, Ysiz) — for every SIZ that
+    T.800 allows (0 ≤ XTOsiz ≤ XOsiz < Xsiz, XTsiz ≥ 1, same in y) and every tile index; and the assembler's
+    generated TileLayout.GetTileBounds places the tile at that rectangle in image-local coordinates.
+    (A clamp against XTOsiz instead of XOsiz breaks this theorem at regeneration.) -/
+theorem tile_rect_clipped_to_image (siz : Gen.J2kTileClamp.SIZSegment) (t : Int) (ht : Bool) (hok : SizOk siz)
+    (h0 : 0 ≤ t) (hlt : t < b3NumX siz * b3NumY siz) :
+    let td := Gen.J2kTileClamp.NewTileDecoder ⟨t⟩ siz ht
+    (td.tileX0, td.tileY0, td.tileX1, td.tileY1) = b3Rect siz t ∧
+    Gen.J2kTiles.TileLayout.GetTileBounds (layoutOf siz) t =
+      (td.tileX0 - siz.XOsiz, td.tileY0 - siz.YOsiz, td.tileX1 - siz.XOsiz, td.tileY1 - siz.YOsiz) :=
+  ⟨tileDecoder_rect_eq_b3 siz t ht hok h0, tileDecoder_rect_eq_assembler siz t ht hok h0 hlt⟩
+
+/-- the seeded shape: XOsiz = 2^22, Xsiz = XTsiz = 2^22 + 16, XTOsiz = 0: one tile, clipped to 16 columns -/
+example :
+    let siz : Gen.J2kTileClamp.SIZSegment := ⟨0, 4194320, 64, 4194304, 0, 4194320, 64, 0, 0, 1⟩
+    SizOk siz ∧ b3NumX siz * b3NumY siz = 1 ∧ b3Rect siz 0 = (4194304, 0, 4194320, 64) ∧
+    Gen.J2kTiles.TileLayout.GetTileBounds (layoutOf siz) 0 = (0, 0, 16, 64) := by
+  unfold SizOk; decide
+
 end J2k
+
+namespace J2kProg
+open J2k
+
+/-- (8) packet sequencing: the five progression loops of packet_encoder.go and packet_decoder.go generate the same
+    packet sequence from the same position maps (both sides build the maps with the one shared buildPositionMaps) -/
+theorem progression_loops_agree (nL nR nC : Nat) (idx : Nat → Nat → List Nat) (m : PosMaps) :
+    encLRCP nL nR nC idx (fun _ _ _ => true) = decLRCP nL nR nC idx ∧
+    encRLCP nL nR nC idx (fun _ _ _ => true) = decRLCP nL nR nC idx ∧
+    encRPCL nL nR nC m (fun _ _ _ => true) = decRPCL nL nR nC m ∧
+    encPCRL nL nR nC m (fun _ _ _ => true) = decPCRL nL nR nC m ∧
+    encCPRL nL nR nC m (fun _ _ _ => true) = decCPRL nL nR nC m := loops_agree nL nR nC idx m
+
+/-- (9) … and its INPUTS are equal for every tile of every grid (this is where fix 746634b was): the component
+    bounds the encoder hands to its PacketEncoder are the tile's canvas rectangle, which is what TileDecoder.Decode
+    derives from the SIZ segment the encoder wrote; sampling is (1, 1) on both sides; the precinct sizes are
+    getPrecinctSize on the encoder and `1 << PPx` of the written COD (or the default 2^15) on the decoder.
+    Hence buildPositionMaps returns the same maps and, by (8), the packet order is the same for all five progressions
+    — given equal precinct index sets (C04 `precinct_count_agreement`, C19 (5)). -/
+theorem progression_inputs_agree (e : Gen.J2kTiles.Encoder) (nC : Nat) (W H TW TH t : Int) (idx : Nat → Nat → List Nat)
+    (hW : 1 ≤ W) (hH : 1 ≤ H) (hTW : 1 ≤ TW) (hTH : 1 ≤ TH) (h0 : 0 ≤ t)
+    (hlt : t < encNumTiles W TW * encNumTiles H TH)
+    (hp0 : 0 ≤ e.params.PrecinctWidth) (hp1 : 0 ≤ e.params.PrecinctHeight) :
+    encInputs e nC (encTileBounds W H TW TH t) idx =
+      decInputs e nC (Gen.J2kTileClamp.NewTileDecoder ⟨t⟩ (sizOf W H TW TH nC) false) idx :=
+  inputs_agree' e nC W H TW TH t idx hW hH hTW hTH h0 hlt hp0 hp1
+
+/-- (10) composition of (8) and (9): for every tile of every grid and each of the five progression orders, the
+    packet sequence the encoder writes (its loops over buildPositionMaps of ITS inputs) is the sequence the decoder
+    reads (its loops over buildPositionMaps of the inputs TileDecoder.Decode derives from the written SIZ/COD);
+    precinctPositionKey inside buildPositionMaps is the generated kernel `Gen.J2kPosKey.precinctPositionKey` -/
+theorem packet_sequence_agreement (e : Gen.J2kTiles.Encoder) (prog nL nC : Nat) (W H TW TH t : Int) (idx : Nat → Nat → List Nat)
+    (hW : 1 ≤ W) (hH : 1 ≤ H) (hTW : 1 ≤ TW) (hTH : 1 ≤ TH) (h0 : 0 ≤ t)
+    (hlt : t < encNumTiles W TW * encNumTiles H TH)
+    (hp0 : 0 ≤ e.params.PrecinctWidth) (hp1 : 0 ≤ e.params.PrecinctHeight) :
+    encSequence prog nL (encInputs e nC (encTileBounds W H TW TH t) idx) =
+      decSequence prog nL (decInputs e nC (Gen.J2kTileClamp.NewTileDecoder ⟨t⟩ (sizOf W H TW TH nC) false) idx) := by
+  rw [← inputs_agree' e nC W H TW TH t idx hW hH hTW hTH h0 hlt hp0 hp1]
+  exact sequence_same_inputs prog nL _
+
+/-- (10b) buildPositionMaps loses and invents no position: the sorted list for a resolution has exactly the
+    positions of that resolution's entries -/
+theorem position_maps_complete (i : Inputs) (r : Nat) (x : Pos) :
+    x ∈ (buildMaps i).byRes r ↔ x ∈ ((entries i).filter fun e => e.2.1 == r).map fun e => e.2.2.1 :=
+  mem_sortedPositions x _
+
+/-- a concrete map: tile (0,24)-(27,33) of the regression below, 1 component, 2 resolutions, 8×8 precincts at both:
+    resolution 1 (rows 24..33 → precinct rows 24, 32; 4 columns) in raster order of positions -/
+example :
+    let i : Inputs := { numComponents := 1, numResolutions := 2, bounds := fun _ => (0, 24, 27, 33), sampling := fun _ => (1, 1), precinctSize := fun _ => (8, 8), indices := fun _ r => if r = 0 then [0, 1] else [0, 1, 2, 3, 4, 5, 6, 7] }
+    (buildMaps i).byRes 1 = [(0, 24), (8, 24), (16, 24), (24, 24), (0, 32), (8, 32), (16, 32), (24, 32)] ∧
+    (buildMaps i).byRes 0 = [(0, 16), (16, 16)] ∧ (buildMaps i).lookup 0 1 (8, 32) = some 5 ∧
+    (decSequence 2 1 i).length = 10 ∧ encSequence 3 1 i = decSequence 3 1 i := by decide
+
+/-- regression anchor (old defect `j2k-tiled-precincts-position-progression`): 27×33 image, 40×24 tiles, tile 1 is
+    rows 24..33; 32×32 precincts: with the canvas bounds (both sides now) precinct 0 of resolution 0 sits at y = 0,
+    with the tile-local bounds the old encoder used it sat at y = 0 of a DIFFERENT rectangle — position keys differ -/
+example : positionKey (0, 24, 27, 33) 1 1 0 0 32 32 0 = some (0, 0) ∧ positionKey (0, 24, 27, 33) 1 1 0 0 32 32 1 = some (0, 32) ∧
+    positionKey (0, 0, 27, 9) 1 1 0 0 32 32 1 = none := by decide
+
+end J2kProg
